@@ -54,17 +54,17 @@ class Scn:
     def hosts(self, n=1):
         self.ops.append(("HOSTS", n))
 
-    def start(self, s, r, join=False, peers=None):
+    def start(self, s, r, join=False, peers=None, h=0):
         if peers is None:
-            peers = [] if join else [(r, "h0")]
+            peers = [] if join else [(r, "h%d" % h)]
         self.probes.add((s, r))
         (self.join_pairs if join else self.nonjoin_pairs).add((s, r))
-        self.ops.append(("START", 0, s, r, join, peers))
+        self.ops.append(("START", h, s, r, join, peers))
 
-    def stop(self, s, r):
-        self.ops.append(("STOP", 0, s, r))
+    def stop(self, s, r, h=0):
+        self.ops.append(("STOP", h, s, r))
 
-    def req(self, t, s, m=(), c=None, i=0, j=0, r=0, app="kvtest", ids=(), addrs=()):
+    def req(self, t, s, m=(), c=None, i=0, j=0, r=0, app="kvtest", ids=(), addrs=(), h=0):
         d = dict(t=t, s=s, m=list(m), c=c, i=i, j=j, r=r, app=app, ids=list(ids), addrs=list(addrs))
         if t == "CREATE":
             self.probes.add((s, i))
@@ -72,13 +72,13 @@ class Scn:
                 (self.join_pairs if j else self.nonjoin_pairs).add((s, i))
         for x in m:
             self.probes.add((s, x))
-        self.ops.append(("REQ", 0, d))
+        self.ops.append(("REQ", h, d))
 
-    def deliver(self, plog=0):
-        self.ops.append(("REPORT", 0, plog))
+    def deliver(self, plog=0, h=0):
+        self.ops.append(("REPORT", h, plog))
 
-    def handle(self, ms=None):
-        self.ops.append(("HANDLE", 0, ms))
+    def handle(self, ms=None, h=0):
+        self.ops.append(("HANDLE", h, ms))
 
     def handle_bg(self, ms, delay=150):
         """HandleMasterRequests on its own goroutine (the request worker of node.go runs next to the reporter): what is delivered
@@ -88,29 +88,42 @@ class Scn:
     def handle_wait(self):
         self.ops.append(("HANDLEWAIT", 0))
 
-    def restart(self):
+    def restart(self, h=0):
         """the NodeHost process goes away and comes back on the same disk"""
-        self.ops.append(("RESTART", 0))
+        self.ops.append(("RESTART", h))
 
-    def settle(self):
-        self.ops.append(("SETTLE", 0))
+    def settle(self, h=0):
+        self.ops.append(("SETTLE", h))
 
-    def dump(self):
-        self.ops.append(("DUMP", 0))
+    def wait(self, s, n, h=0):
+        """until the replica of shard s on host h is initialised, knows a leader and sees n members"""
+        self.ops.append(("WAIT", h, s, n))
+
+    def dump(self, h=0):
+        self.ops.append(("DUMP", h))
         return sum(1 for o in self.ops if o[0] == "DUMP") - 1
 
-    def ver(self, d):
-        self.ops.append(("VER", dict(d)))
+    def ver(self, d, server=0):
+        self.ops.append(("VER", dict(d), server))
 
-    def sreport(self, plog, logs, infos):
-        self.ops.append(("SREPORT", 0, plog, list(logs), list(infos)))
+    def drummers(self, n):
+        """the agent is configured with n scripted Drummer servers; every server answers from its own view"""
+        self.ops.append(("DRUMMERS", n))
 
-    def round(self, plog=0):
+    def dmode(self, server, mode):
+        """ok | failindex (the index list call fails) | failreport (the report arrives, then the call fails)"""
+        self.ops.append(("DMODE", server, mode))
+
+    def sreport(self, plog, logs, infos, targets=None):
+        """targets: the servers the SAME NodeHostInfo value is handed to, one after the other"""
+        self.ops.append(("SREPORT", 0, plog, list(logs), list(infos), targets))
+
+    def round(self, plog=0, h=0):
         """deliver what was scripted, execute, observe; returns the index of the observation"""
-        self.deliver(plog)
-        self.handle()
-        self.settle()
-        return self.dump()
+        self.deliver(plog, h)
+        self.handle(h=h)
+        self.settle(h)
+        return self.dump(h)
 
     # ---- text for the executor
     def lines(self):
@@ -131,7 +144,14 @@ class Scn:
             elif k == "DUMP":
                 out.append("DUMP %d %s" % (o[1], probes))
             elif k == "VER":
-                out.append("VER " + " ".join("%d=%s" % (s, v) for s, v in sorted(o[1].items())))
+                srv = o[2] if len(o) > 2 else 0
+                out.append("VER " + ("@%d " % srv if srv else "") + " ".join("%d=%s" % (s, v) for s, v in sorted(o[1].items())))
+            elif k == "DRUMMERS":
+                out.append("DRUMMERS %d" % o[1])
+            elif k == "DMODE":
+                out.append("DMODE %d %s" % (o[1], o[2]))
+            elif k == "WAIT":
+                out.append("WAIT %d %d %d" % (o[1], o[2], o[3]))
             elif k == "REQ":
                 d = o[2]
                 f = ["t=%s" % d["t"], "s=%d" % d["s"], "m=%s" % (",".join(map(str, d["m"])) or "-"), "i=%d" % d["i"],
@@ -151,11 +171,12 @@ class Scn:
             elif k == "RESTART":
                 out.append("RESTART %d" % o[1])
             elif k == "SREPORT":
-                _, h, plog, logs, infos = o
+                _, h, plog, logs, infos = o[:5]
+                targets = o[5] if len(o) > 5 else None
                 li = ",".join("%d:%d" % p for p in logs) or "-"
                 si = ";".join("%d,%d,%d,%d,%d,%d,%s" % (x["shard"], x["replica"], x["field"], x["lid"], x["cci"], 1 if x["pending"] else 0,
                                                        "|".join("%d:%s" % m for m in x["members"]) or "-") for x in infos) or "-"
-                out.append("SREPORT %d %d %s %s" % (h, plog, li, si))
+                out.append("SREPORT %d %d %s %s" % (h, plog, li, si) + (" " + ",".join(map(str, targets)) if targets else ""))
         out.append("END")
         return out
 
@@ -238,6 +259,122 @@ def gen_report_table(ck, sid):
     sc.ver({1: "abs:1"})
     sc.sreport(1, [(1, 1)], [])
     sc.sreport(0, [], [])
+    return sc
+
+
+def ver_for(rng, rel, cci):
+    """a version Drummer advertises, in relation rel to the local one; None: shard unknown to Drummer"""
+    if rel == "lt":
+        return cci - rng.choice([1, 1, cci])
+    if rel == "eq":
+        return cci
+    if rel == "gt":
+        return cci + rng.choice([1, 1, 5])
+    return None
+
+
+def gen_report_table2(ck, sid):
+    """the SAME hand made NodeHostInfo value is handed to SendNodeHostInfo for two Drummer servers one after the other (what
+    node.go does when a send fails), the servers advertising independent versions: (relation at server A) x (relation at server
+    B) x pending per hosted replica, exhaustive for 1 replica, sampled for 2..3; both orders.  Each report must be truthful
+    with respect to the server it went to, and the caller's value must be unchanged after every call."""
+    rng = ck.rng
+    sc = Scn(sid, "report-table")
+    sc.hosts(1)
+    sc.drummers(2)
+    rels = ["lt", "eq", "gt", "unk"]
+    quick = ck.tier == "quick"
+    per = list(itertools.product(rels, rels, (False, True)))
+    for n in (1, 2, 3):
+        combos = list(itertools.product(per, repeat=n)) if n < 3 else [tuple(rng.choice(per) for _ in range(3)) for _ in range(4000)]
+        lim = {1: None, 2: 140 if quick else None, 3: 60 if quick else 1500}[n]
+        if lim is not None and len(combos) > lim:
+            combos = rng.sample(combos, lim)
+        for combo in combos:
+            shards = rng.sample(range(1, 9), n)
+            infos, va, vb = [], {}, {}
+            for (ra, rb, pending), s in zip(combo, shards):
+                cci = rng.choice([1, 2, 3, 7, 4000000000]) if not pending else rng.choice([1, 3])
+                for rel, tab in ((ra, va), (rb, vb)):
+                    v = ver_for(rng, rel, cci)
+                    if v is not None:
+                        tab[s] = "abs:%d" % v
+                r = rng.randrange(1, 9)
+                members = [] if (pending and rng.random() < 0.8) else sorted(set([(r, "h0")] + [(r + k + 1, "x%d" % (k + 1)) for k in range(rng.randrange(0, 3))]))
+                infos.append(dict(shard=s, replica=r, field=rng.randrange(2), lid=rng.choice([r, 0]), cci=cci, pending=pending, members=members))
+            plog = rng.randrange(2)
+            logs = sorted(set((x["shard"], x["replica"]) for x in infos)) if (plog and rng.random() < 0.7) else []
+            sc.ver(va, server=0)
+            sc.ver(vb, server=1)
+            sc.sreport(plog, logs, infos, targets=rng.choice([[0, 1], [0, 1], [1, 0], [0, 1, 0]]))
+    return sc
+
+
+def gen_failover(ck, sid, n):
+    """real replicas, the agent configured with 2..3 Drummer servers that advertise DIFFERENT versions (every Drummer answers
+    from its own view) and fail at different points of the exchange: index list call fails / report call fails after the
+    report arrived / accepts.  Through node.go reportNodeHostInfo (which shuffles the servers: the order is observed, not
+    chosen).  Every report that reached a server is judged against that server's versions; requests come only from the server
+    that accepted, once."""
+    rng = ck.rng
+    sc = Scn(sid, "report-failover")
+    sc.hosts(1)
+    nsrv = rng.choice([2, 2, 3])
+    sc.drummers(nsrv)
+    shards = rng.sample(range(1, 8), n)
+    fresh = [x for x in range(1, 10) if x not in shards]
+    kinds = []
+    for s in shards:
+        r = rng.randrange(1, 9)
+        kind = rng.choice(["single", "single", "single", "trio", "join", "stopped"])
+        kinds.append(kind)
+        if kind == "single":
+            sc.start(s, r)
+        elif kind == "trio":
+            sc.start(s, r, peers=[(r, "h0"), (r + 1, "x1"), (r + 2, "x2")])
+        elif kind == "join":
+            sc.start(s, r, join=True)
+        else:
+            sc.start(s, r); sc.settle(); sc.stop(s, r)
+    sc.settle(); sc.dump()
+    sc.note = "%d Drummer servers; hosted: %s" % (nsrv, ", ".join("%d:%s" % x for x in zip(shards, kinds)))
+    rels = ["lt", "eq", "gt", "unk"]
+    patterns = [["failreport"] * nsrv, ["failreport"] * (nsrv - 1) + ["ok"], ["failindex"] + ["failreport"] * (nsrv - 2) + ["ok"],
+                ["ok"] * nsrv, ["failindex"] * (nsrv - 1) + ["failreport"]]
+    nrounds = 5 if ck.tier == "quick" else 12
+    for k in range(nrounds):
+        # per shard: the servers disagree - somebody is up to date (>=), somebody is behind or does not know the shard
+        for d in range(nsrv):
+            vers = {}
+            for s in shards:
+                rel = rng.choice(rels)
+                if k % 2 == 0:
+                    rel = ["eq", "lt", "unk", "gt"][(d + shards.index(s) + k // 2) % 4]
+                if rel != "unk":
+                    vers[s] = "rel:0:%d" % {"lt": -1, "eq": 0, "gt": 1}[rel]
+            sc.ver(vers, server=d)
+        modes = list(patterns[k % len(patterns)])
+        rng.shuffle(modes)
+        for d in range(nsrv):
+            sc.dmode(d, modes[d])
+        if k == nrounds - 2:          # a batch is scripted while no server accepts: it must not arrive ...
+            for d in range(nsrv):
+                sc.dmode(d, "failreport")
+            r = rng.randrange(1, 5)
+            sc.req("CREATE", fresh[0], i=r, ids=[r], addrs=["h0"])
+            sc.deliver(rng.randrange(2)); sc.handle(); sc.settle(); ia = sc.dump()
+            sc.expect.append(("no Drummer server accepted the report: no request may have been received, nothing is started",
+                              lambda S, ia=ia: st_running(S[ia], fresh[0]) is None))
+        elif k == nrounds - 1:        # ... and arrives, once, with the first report that is accepted
+            for d in range(nsrv):
+                sc.dmode(d, rng.choice(["ok", "failreport"]) if d else "ok")
+            sc.deliver(rng.randrange(2)); sc.handle(); sc.settle(); ib = sc.dump()
+            sc.handle(); sc.settle(); ic = sc.dump()
+            sc.once_pairs.append((ib, ic))
+            sc.expect.append(("the request scripted earlier arrives with the first accepted report and is executed",
+                              lambda S, ib=ib: st_running(S[ib], fresh[0]) is not None))
+        else:
+            sc.deliver(rng.randrange(2))
     return sc
 
 
@@ -473,6 +610,72 @@ def tpl(ck, sid, name):
                % (used[x], what[x]), fn))
         E(("join request carrying the shard's member list: the new replica is started (joining) and recorded",
            lambda S: run_is(i3, sE, rE)(S) and st_info(S[i3], sE, rE) is True))
+    elif name.startswith("redeliver-"):
+        # replicas created THROUGH the agent go down (StopReplica / NodeHost restart) before Drummer ever saw them reported; its
+        # level-triggered retry sends the join CREATE again, for the launched one a restore CREATE: the replica has local data
+        # and must run again, membership as before; one more re-delivery while it runs changes nothing
+        v = int(name.rsplit("-", 1)[1])
+        sc.settle(); sc.dump()
+        jl = rand_lists(rng, r)
+        sc.req("CREATE", s, i=r, j=1, **jl)
+        sc.req("CREATE", s2, i=r2, ids=[r2], addrs=["h0"], app=rng.choice(["kvtest", "concurrentkv"]))
+        i1 = sc.round()
+        if v % 2 == 1:
+            sc.restart()
+        else:
+            sc.stop(s, r); sc.stop(s2, r2)
+        sc.settle(); i2 = sc.dump()
+        app2 = [o for o in sc.ops if o[0] == "REQ"][1][2]["app"]
+        sc.req("CREATE", s, i=r, j=1, **(jl if v < 2 else rand_lists(rng, r)))
+        sc.req("CREATE", s2, i=r2, r=1, app=app2, **rand_lists(rng, r2))
+        i3 = sc.round()
+        sc.req("CREATE", s, i=r, j=1, **jl)
+        sc.req("CREATE", s2, i=r2, r=1, app=app2, **rand_lists(rng, r2))
+        i4 = sc.round()
+        sc.note = "went down by %s" % ("NodeHost restart" if v % 2 == 1 else "StopReplica")
+        E(("set-up: join and launch CREATE executed", lambda S: run_is(i1, s, r)(S) and run_is(i1, s2, r2)(S)))
+        E(("set-up: nothing runs after the stop / restart, the data is still there",
+           lambda S: not S[i2]["shards"] and st_info(S[i2], s, r) is True and st_info(S[i2], s2, r2) is True))
+        E(("join CREATE delivered again for a replica that has its data on the host (it was started by a join CREATE before the %s): "
+           "the replica runs again" % ("NodeHost restarted" if v % 2 == 1 else "replica was stopped"),
+           lambda S: run_is(i3, s, r)(S) and st_info(S[i3], s, r) is True))
+        E(("restore CREATE for the replica launched through the agent: it runs again, membership as before",
+           lambda S: run_is(i3, s2, r2)(S) and st_running(S[i3], s2)["members"] == st_running(S[i1], s2)["members"]
+           and st_running(S[i3], s2)["cci"] == st_running(S[i1], s2)["cci"]))
+        E(("the same CREATE requests delivered once more while the replicas run change nothing",
+           lambda S: st_key(S[i3]) == st_key(S[i4])))
+    elif name.startswith("rejoin-2hosts-"):
+        # the real thing: replica r2 is ADDed to a running shard and started on a SECOND NodeHost by a join CREATE, gets the
+        # membership from the leader, goes down before Drummer saw it reported; the join CREATE is delivered again: it must run
+        # again with the membership it had.  Two NodeHosts: judged by the monitors only (the reference NodeHost models one host)
+        v = int(name.rsplit("-", 1)[1])
+        sc.hosts_n = 2
+        sc.ops[0] = ("HOSTS", 2)
+        sc.monitor_only = True
+        sc.start(s, r); sc.settle(); sc.dump()
+        sc.req("ADD", s, m=[r2], c="rel:0:0", addrs=["h1"])
+        i0 = sc.round()
+        cur = [(r, "h0"), (r2, "h1")]
+        jl = member_lists(LIST_VARIANTS[v % 4], r2, [], cur)
+        sc.req("CREATE", s, i=r2, j=1, h=1, **jl)
+        sc.deliver(rng.randrange(2), h=1); sc.handle(h=1); sc.wait(s, 2, h=1); i1 = sc.dump(h=1)
+        if v % 2 == 1:
+            sc.restart(h=1)
+        else:
+            sc.stop(s, r2, h=1)
+        i2 = sc.dump(h=1)
+        sc.req("CREATE", s, i=r2, j=1, h=1, **jl)
+        sc.deliver(rng.randrange(2), h=1); sc.handle(h=1); sc.wait(s, 2, h=1); i3 = sc.dump(h=1)
+        sc.note = "second NodeHost went down by %s; member list of the join request: %s" % (
+            "restart" if v % 2 == 1 else "StopReplica", LIST_VARIANTS[v % 4])
+        E(("set-up: member added on the first NodeHost", lambda S: st_members(S[i0], s) == [r, r2]))
+        E(("set-up: the join CREATE started the new member on the second NodeHost, it got the shard's membership",
+           lambda S: run_is(i1, s, r2)(S) and st_members(S[i1], s) == [r, r2] and not st_running(S[i1], s)["pending"]))
+        E(("set-up: not running after the stop / restart, data still there",
+           lambda S: st_running(S[i2], s) is None and st_info(S[i2], s, r2) is True))
+        E(("join CREATE delivered again to a NodeHost that holds the data of the joined replica: the replica runs again, membership as before",
+           lambda S: run_is(i3, s, r2)(S) and st_running(S[i3], s)["members"] == st_running(S[i1], s)["members"]
+           and st_running(S[i3], s)["cci"] == st_running(S[i1], s)["cci"]))
     elif name == "order-kill-launch":
         sc.start(s, r); sc.start(s2, r); sc.settle(); sc.dump()
         sc.req("KILL", s, m=[r])
@@ -549,6 +752,9 @@ def tpl(ck, sid, name):
         if what == "launch-with-info":
             sc.stop(s, r)
             sc.req("CREATE", s, i=r, ids=[r], addrs=["h0"])
+        elif what == "launch-with-info-restart":      # launch CREATE delivered again after the NodeHost came back with its data
+            sc.restart()
+            sc.req("CREATE", s, i=r, ids=[r], addrs=["h0"])
         elif what == "no-plugin":
             sc.req("CREATE", s2, i=r, ids=[r], addrs=["h0"], app="nosuchapp")
         elif what == "join-and-restore":
@@ -572,7 +778,7 @@ def tpl(ck, sid, name):
 TEMPLATES = ["launch", "restore", "join", "kill", "add", "delete-erases", "delete-rejected-keeps", "order-kill-launch",
              "order-fence", "order-add-add", "two-deliveries", "once-join", "once-kill", "once-restore", "cross-shard",
              "fence-after-restore"]
-CRASHES = ["crash-launch-with-info", "crash-no-plugin", "crash-join-and-restore", "crash-kill-no-member",
+CRASHES = ["crash-launch-with-info", "crash-launch-with-info-restart", "crash-no-plugin", "crash-join-and-restore", "crash-kill-no-member",
            "crash-add-no-address", "crash-unknown-type", "crash-launch-short-ids"]
 
 
@@ -866,12 +1072,17 @@ def coq_report(r):
 def report_monitors(ck, sc, local, vers, flag, rpt, real, idx):
     """the property, directly, on what the Drummer service received.  local: what the NodeHost hosted (harness-known)"""
     def bad(what, **kw):
+        sc.n_report_bad = getattr(sc, "n_report_bad", 0) + 1
+        if sc.n_report_bad > 6 and kw.get("finding") is None:      # one scenario holds hundreds of reports: the first few replays say it all
+            return
         rp = sc.replay()
         rp.update({"kind": "monitor:report", "report_index": idx, "local_state": local, "drummer_versions": vers,
                    "announced_plog": bool(flag), "received": rpt})
         rp.update(kw)
         ck.violation(what, rp)
     recv = rpt["received"]
+    if rpt.get("mutated"):
+        bad("SendNodeHostInfo changed the NodeHostInfo value its caller handed in (the caller re-uses it for the next Drummer server)")
     if real or flag or not local["logs"]:
         if len(recv) != 1:
             bad("reporting failed: the Drummer service received %d reports (error: %s)" % (len(recv), rpt.get("err")))
@@ -917,6 +1128,48 @@ def report_monitors(ck, sc, local, vers, flag, rpt, real, idx):
             % (bool(flag), local["logs"], r["plog"]))
 
 
+def canon_real(local, obs):
+    """NodeHost hands the shards over in arbitrary order: canonicalise both sides"""
+    order = {s: i for i, s in enumerate(obs["ids"])}
+    loc = local
+    if sorted(order) == sorted(x["shard"] for x in local["shards"]) and len(order) == len(obs["ids"]):
+        loc = dict(local, shards=sorted(local["shards"], key=lambda x: order[x["shard"]]))
+    return loc, dict(obs, plog=[list(p) for p in sorted(map(tuple, obs["plog"]))])
+
+
+def round_case(ck, sc, rnd):
+    """one reporting round over several Drummer servers: monitors (somebody reachable got the report; a server whose index list
+    was read got a report) and the model term (who is contacted, in the observed order, and what each one receives)"""
+    def bad(what):
+        rp = sc.replay()
+        rp.update({"kind": "monitor:report-round", "round": rnd})
+        ck.violation(what, rp)
+    by = {x["d"]: x for x in rnd["servers"]}
+    contact = []
+    for d in rnd["order"]:
+        if d not in contact:
+            contact.append(d)
+    oks = [x for x in rnd["servers"] if x["mode"] == "ok"]
+    if oks and not any(x["received"] for x in oks):
+        bad("reporting failed: %d Drummer server(s) were ready to take the report, none got it (servers contacted: %s)" % (len(oks), contact))
+    for d in contact:
+        x = by[d]
+        if x["mode"] != "failindex" and len(x["received"]) != 1:
+            bad("Drummer server %d answered the index list call but received %d reports" % (d, len(x["received"])))
+    mode = {"ok": "MAccept", "failreport": "MFailReport", "failindex": "MFailIndex"}
+    servers = contact + [d for d in sorted(by) if d not in contact]
+    loc, obs = rnd["local"], []
+    first = next((by[d]["received"][0] for d in contact if by[d]["received"]), None)
+    if first is not None:         # every report of the round is built from ONE GetNodeHostInfo result: same shard order
+        loc = canon_real(rnd["local"], first)[0]
+    for d in contact:
+        r = by[d]["received"][0] if len(by[d]["received"]) == 1 else None
+        obs.append(None if r is None else canon_real(rnd["local"], r)[1])
+    return "fcase %s %s %s %s" % (coq_nhi(loc), cbool(rnd["flag"]),
+                                  clist(servers, lambda d: "(%s, %s)" % (cpairs(sorted((v[0], v[1]) for v in by[d]["versions"])), mode[by[d]["mode"]])),
+                                  clist(obs, coq_report))
+
+
 # ------------------------------------------------------------------------------------------------ model terms
 def coq_req(d):
     t = {"CREATE": "TCreate", "DELETE": "TDelete", "ADD": "TAdd", "KILL": "TKill"}.get(d["t"], "TUnknown")
@@ -938,9 +1191,10 @@ def scenario_steps(sc):
     recs = list(sc.recs)
     pos = 0
     pending = []
-    vers = {}
+    vers_by = {}         # scripted Drummer server -> its version table
     in_bg = False
     sc.overlaps = []
+    sc.rounds = []       # reporting rounds over several Drummer servers
 
     def nxt(kind):
         nonlocal pos
@@ -953,6 +1207,12 @@ def scenario_steps(sc):
         if k == "HOSTS":
             if nxt("HOSTS") is None:
                 break
+        elif k in ("DRUMMERS", "DMODE", "WAIT"):
+            rec = nxt(k)
+            if rec is None:
+                break
+            if k == "WAIT" and not rec["ok"]:
+                sc.unsettled = True
         elif k == "START":
             if nxt("START") is None:
                 break
@@ -972,7 +1232,7 @@ def scenario_steps(sc):
             rec = nxt("VER")
             if rec is None:
                 break
-            vers = {x[0]: x[1] for x in rec["versions"]}
+            vers_by[rec.get("d", 0)] = {x[0]: x[1] for x in rec["versions"]}
         elif k == "REQ":
             rec = nxt("REQ")
             if rec is None:
@@ -985,7 +1245,22 @@ def scenario_steps(sc):
             local = {"addr": "h%d" % o[1], "api": "api-h%d" % o[1], "logs": loc["logs"],
                      "shards": [dict(shard=x["shard"], replica=x["replica"], lid=x["leader_id"], members=x["members"], cci=x["cci"],
                                      pending=x["pending"]) for x in loc["shards"]]}
-            reports.append((local, dict(vers), o[2], rpt, True))
+            if "servers" in rpt:
+                # several servers: every contacted server's report is judged against THAT server's versions
+                rnd = {"local": local, "flag": o[2], "order": rpt["order"], "servers": rpt["servers"], "index": len(sc.rounds)}
+                sc.rounds.append(rnd)
+                accepted = False
+                for srv in rpt["servers"]:
+                    if srv["received"]:
+                        reports.append((local, {x[0]: x[1] for x in srv["versions"]}, o[2],
+                                        {"received": srv["received"], "calls": srv["calls"], "server": srv["d"], "round": rnd["index"],
+                                         "contact_order": rpt["order"]}, True))
+                        accepted = accepted or srv["mode"] == "ok"
+                rnd["accepted"] = accepted
+                if not accepted:          # nobody handed the scripted batch out: it stays scripted for the next round
+                    continue
+            else:
+                reports.append((local, dict(vers_by.get(0, {})), o[2], rpt, True))
             steps.append("SRecv %s" % clist(pending, coq_req))
             pending = []
             if in_bg:
@@ -995,11 +1270,16 @@ def scenario_steps(sc):
             rpt = nxt("SRPT")
             if rpt is None:
                 break
-            _, h, plog, logs, infos = o
+            _, h, plog, logs, infos = o[:5]
             local = {"addr": "h%d" % h, "api": "api-h%d" % h, "logs": [list(p) for p in logs],
                      "shards": [dict(shard=x["shard"], replica=x["replica"], lid=x["lid"], members=[[m[0], m[1]] for m in x["members"]],
                                      cci=x["cci"], pending=x["pending"]) for x in infos]}
-            reports.append((local, dict(vers), plog, rpt, False))
+            if "sends" in rpt:            # the same value handed to several servers one after the other
+                for n_send, snd in enumerate(rpt["sends"]):
+                    snd = dict(snd, server=snd["d"], send_index=n_send, sent_to=[x["d"] for x in rpt["sends"]])
+                    reports.append((local, {x[0]: x[1] for x in snd["versions"]}, plog, snd, False))
+            else:
+                reports.append((local, dict(vers_by.get(0, {})), plog, rpt, False))
         elif k == "HANDLE":
             rec = nxt("HANDLE")
             if rec is None:
@@ -1069,15 +1349,20 @@ def assess(ck, scns, final, kinds, counters):
             recv = rpt["received"]
             obs = recv[0] if len(recv) == 1 else None
             loc = local
-            if real and obs is not None:      # NodeHost hands the shards over in arbitrary order: canonicalise both sides
-                order = {s: i for i, s in enumerate(obs["ids"])}
-                if sorted(order) == sorted(x["shard"] for x in local["shards"]) and len(order) == len(obs["ids"]):
-                    loc = dict(local, shards=sorted(local["shards"], key=lambda x: order[x["shard"]]))
-                plog_sorted = sorted(map(tuple, obs["plog"]))
-                obs = dict(obs, plog=[list(p) for p in plog_sorted])
+            if real and obs is not None:
+                loc, obs = canon_real(local, obs)
             term = "%s %s %s %s %s" % ("rcase" if real else "scase", coq_nhi(loc), cpairs(sorted(vers.items())), cbool(flag), coq_report(obs))
             my_items.append(("report", term, sc, {"report_index": idx, "local_state": local, "drummer_versions": vers, "announced": flag, "received": rpt}))
+        for rnd in getattr(sc, "rounds", []):
+            counters["failover_rounds"] += 1
+            if sum(1 for x in rnd["servers"] if x["received"]) > 1:
+                counters["failover_rounds_several_servers_got_a_report"] += 1
+            my_items.append(("round", round_case(ck, sc, rnd), sc, {"round": rnd}))
         if sc.kind.startswith("report"):
+            if defer and len(ck.violations) > n_before:
+                del ck.violations[n_before:]
+                retry.append(sc)
+                continue
             items.extend(my_items)
             continue
         # executions
@@ -1174,8 +1459,11 @@ def run(ck):
     quick = ck.tier == "quick"
     scns = []
     scns.append(gen_report_table(ck, "rt0"))
+    scns.append(gen_report_table2(ck, "rt1"))
     for n in ((1, 2, 3, 4) if quick else (1, 2, 3, 4) * 6):
         scns.append(gen_real_report(ck, "rr%d" % len(scns), n))
+    for n in ((1, 2, 3, 4) if quick else (1, 2, 3, 4) * 5):
+        scns.append(gen_failover(ck, "rf%d" % len(scns), n))
     reps = 1 if quick else 12
     for rep in range(reps):
         for name in TEMPLATES:
@@ -1185,6 +1473,12 @@ def run(ck):
             sc = tpl(ck, "m%d-restore-members-%d" % (rep, v), "restore-members-%d" % v)
             sc.retryable = True
             scns.append(sc)
+    for rep in range(1 if quick else 4):
+        for v in range(4):
+            for fam in ("redeliver", "rejoin-2hosts"):
+                sc = tpl(ck, "d%d-%s-%d" % (rep, fam, v), "%s-%d" % (fam, v))
+                sc.retryable = True
+                scns.append(sc)
     for rep in range(1 if quick else 3):
         for name in CRASHES:
             scns.append(tpl(ck, "c%d-%s" % (rep, name), name))
@@ -1202,7 +1496,8 @@ def run(ck):
     ck.cov["params_read_from_code"] = params
     # ---------------- collect, monitors
     kinds = {}
-    counters = {"reports": 0, "overlap_deliveries": 0, "overlap_deliveries_during_batch": 0}
+    counters = {"reports": 0, "overlap_deliveries": 0, "overlap_deliveries_during_batch": 0, "failover_rounds": 0,
+                "failover_rounds_several_servers_got_a_report": 0}
     items, retry = assess(ck, scns, False, kinds, counters)
     for sc in scns[1:4]:
         ck.sample({"scenario": sc.lines()[:12], "observed": sc.recs[:4]})
@@ -1231,6 +1526,8 @@ def run(ck):
         n_items += len(items2)
     ck.cov["scenario_kinds"] = kinds
     ck.cov["reports_checked"] = counters["reports"]
+    ck.cov["failover_rounds"] = counters["failover_rounds"]
+    ck.cov["failover_rounds_several_servers_got_a_report"] = counters["failover_rounds_several_servers_got_a_report"]
     ck.cov["overlap_deliveries"] = counters["overlap_deliveries"]
     ck.cov["overlap_deliveries_during_running_batch"] = counters["overlap_deliveries_during_batch"]
     ck.cov["process_crashes_observed"] = sum(1 for sc in scns if sc.crashed)
